@@ -249,3 +249,132 @@ func TestC16(t *testing.T) {
 		RecordCase("C16", mc.Desc(), dupAfterChange, mc.Labels()...)
 	})
 }
+
+// TestC16Parallel: a sort index is created WHILE writers commit (re-keying rows to values of
+// a small alphabet, deleting and re-inserting rows of their own); once everything is quiet,
+// Ascend must visit exactly the rows that hold a value, each once, in non-decreasing order of
+// their CURRENT values. Evaluated at quiescence only (schedule-independent).
+func TestC16Parallel(t *testing.T) {
+	rapid.Check(t, func(t *rapid.T) {
+		blocks := rapid.IntRange(2, 4).Draw(t, "blocks")
+		writers := rapid.IntRange(1, 4).Draw(t, "writers")
+		c := column.NewCollection(column.Options{Capacity: 1024, Vacuum: 24 * 3600 * 1e9})
+		defer c.Close()
+		c.CreateColumn("s", column.ForString())
+		c.CreateColumn("w", column.ForInt())
+		n := (blocks-1)*16384 + 300
+		alphabet := []string{"a", "b", "b", "c", "d", "", "zz"}
+		c.Query(func(txn *column.Txn) error {
+			for i := 0; i < n; i++ {
+				txn.Insert(func(r column.Row) error {
+					r.SetInt("w", i%writers)
+					if i%11 != 0 { // some rows hold no value
+						r.SetString("s", alphabet[i%len(alphabet)])
+					}
+					return nil
+				})
+			}
+			return nil
+		})
+		stop := make(chan struct{})
+		done := make(chan string, writers)
+		for w := 0; w < writers; w++ {
+			go func(w int) {
+				msg := ""
+				defer func() {
+					if p := recover(); p != nil {
+						msg = fmt.Sprintf("writer panicked: %v", p)
+					}
+					done <- msg
+				}()
+				x := uint32(w*7919 + 1)
+				for i := 0; ; i++ {
+					select {
+					case <-stop:
+						return
+					default:
+					}
+					x = x*1664525 + 1013904223
+					// a writer only touches rows it owns (offset % writers == w), mostly in the first block
+					row := (x >> 8) % uint32(n)
+					if i%2 == 0 {
+						row %= 400
+					}
+					row -= row % uint32(writers)
+					row += uint32(w)
+					if int(row) >= n {
+						continue
+					}
+					switch i % 7 {
+					case 3:
+						c.DeleteAt(row) // the offset may be re-used by anybody's insert below
+					case 5:
+						c.Insert(func(r column.Row) error { r.SetInt("w", w); r.SetString("s", alphabet[i%len(alphabet)]); return nil })
+					default:
+						c.QueryAt(row, func(r column.Row) error {
+							if _, live := r.Int("w"); live { // deleted rows are left alone
+								r.SetString("s", alphabet[int(x>>5)%len(alphabet)])
+							}
+							return nil
+						})
+					}
+				}
+			}(w)
+		}
+		for k := 0; k < 2; k++ {
+			if err := c.CreateSortIndex("sorted", "s"); err != nil {
+				t.Fatalf("CreateSortIndex: %v", err)
+			}
+			if k == 0 {
+				c.DropIndex("sorted")
+			}
+		}
+		close(stop)
+		for w := 0; w < writers; w++ {
+			if msg := <-done; msg != "" {
+				t.Fatalf("C16 violated (sort index created while %d writers were committing): %s", writers, msg)
+			}
+		}
+		want := map[uint32]string{}
+		c.Query(func(txn *column.Txn) error {
+			s := txn.String("s")
+			return txn.Range(func(idx uint32) {
+				if v, ok := s.Get(); ok {
+					want[idx] = v
+				}
+			})
+		})
+		seen := map[uint32]bool{}
+		prev, first := "", true
+		bad := ""
+		c.Query(func(txn *column.Txn) error {
+			s := txn.String("s")
+			return txn.Ascend("sorted", func(idx uint32) {
+				v, ok := s.Get()
+				switch {
+				case bad != "":
+				case seen[idx]:
+					bad = fmt.Sprintf("row %d is visited twice", idx)
+				case !ok:
+					bad = fmt.Sprintf("row %d is visited but holds no value", idx)
+				case !first && v < prev:
+					bad = fmt.Sprintf("row %d (%q) is visited after a row holding %q: not in non-decreasing order of the current values", idx, v, prev)
+				}
+				seen[idx] = true
+				prev, first = v, false
+			})
+		})
+		if bad == "" {
+			for idx, v := range want {
+				if !seen[idx] {
+					bad = fmt.Sprintf("row %d holds %q but is never visited (%d of %d rows visited)", idx, v, len(seen), len(want))
+					break
+				}
+			}
+		}
+		if bad != "" {
+			t.Fatalf("C16 violated (sort index created while %d writers were committing, %d blocks; judged at quiescence): %s", writers, blocks, bad)
+		}
+		RecordCase("C16", fmt.Sprintf("parallel sort index creation: blocks=%d writers=%d rows=%d", blocks, writers, len(want)), true, "sort-index-created-under-writers")
+	})
+}
